@@ -75,6 +75,10 @@ def check(run):
                 last = max(i for i, st in enumerate(plan) if st[0] == "commit" and st[1])
                 plan = list(plan)
                 plan[last] = ("commit", plan[last][1], {"optimize": True})
+                if wi % 4 == 2:
+                    # (no deletions afterwards: the term statistics of the merged segment - incl. the shortest and
+                    # longest field per term - are asserted on an index without deleted documents only)
+                    plan = [st for st in plan if st[0] != "delete"]
             if li == 2 and wi % 3 == 0:
                 # one part of this partition is built in another index and imported with add_reader()
                 plan = list(plan)
